@@ -102,6 +102,13 @@ func c03Siblings(r *an.Run) {
 					continue
 				}
 				last := call.Call.Args[len(call.Call.Args)-1]
+				for { // a conversion to a named func type
+					ct, isCT := last.(*ssa.ChangeType)
+					if !isCT {
+						break
+					}
+					last = ct.X
+				}
 				var clo *ssa.Function
 				switch v := last.(type) {
 				case *ssa.Function:
@@ -151,13 +158,72 @@ func c03FreshCopies(r *an.Run) {
 		r.Undecided("anchor|ValueReplacer", 0, "type ValueReplacer not found")
 		return
 	}
+	// construction sites: a ValueReplacer literal, or a call to a private constructor whose body is nothing but
+	// such a literal around its parameter (newValueReplacer(v)); the site is then the constructor's call
+	type vrSite struct {
+		f     *ssa.Function
+		at    ssa.Instruction
+		value ssa.Value // what goes into the Value field
+	}
+	literalValue := func(al *ssa.Alloc) ssa.Value {
+		var v ssa.Value
+		for _, u := range *al.Referrers() {
+			if fa, ok := u.(*ssa.FieldAddr); ok {
+				for _, w := range *fa.Referrers() {
+					if st, ok := w.(*ssa.Store); ok {
+						v = st.Val
+					}
+				}
+			}
+		}
+		return v
+	}
+	isVRLiteral := func(in ssa.Instruction) (*ssa.Alloc, bool) {
+		al, ok := in.(*ssa.Alloc)
+		if !ok || al.Comment != "complit" || !types.Identical(al.Type().Underlying().(*types.Pointer).Elem(), vrT) {
+			return nil, false
+		}
+		return al, true
+	}
+	constructors := map[*ssa.Function]int{} // constructor -> index of the parameter that becomes Value
 	for _, f := range r.P.PkgFuncs(engine) {
+		if f.Blocks == nil || len(f.Blocks) != 1 || f.Signature.Recv() != nil || f.Signature.Results().Len() != 1 || !types.Identical(f.Signature.Results().At(0).Type(), vrT) {
+			continue
+		}
+		for _, in := range f.Blocks[0].Instrs {
+			if al, ok := isVRLiteral(in); ok {
+				if prm, isParam := literalValue(al).(*ssa.Parameter); isParam {
+					for i, q := range f.Params {
+						if q == prm {
+							constructors[f] = i
+						}
+					}
+				}
+			}
+		}
+	}
+	var sites []vrSite
+	for _, f := range r.P.PkgFuncs(engine) {
+		if _, isCtor := constructors[f]; isCtor {
+			continue
+		}
 		for _, b := range f.Blocks {
 			for _, in := range b.Instrs {
-				al, ok := in.(*ssa.Alloc)
-				if !ok || al.Comment != "complit" || !types.Identical(al.Type().Underlying().(*types.Pointer).Elem(), vrT) {
-					continue
+				if al, ok := isVRLiteral(in); ok {
+					sites = append(sites, vrSite{f, al, literalValue(al)})
 				}
+				if c, ok := in.(*ssa.Call); ok {
+					if pi, isCtor := constructors[an.StaticCallee(c)]; isCtor && pi < len(c.Call.Args) {
+						sites = append(sites, vrSite{f, c, c.Call.Args[pi]})
+					}
+				}
+			}
+		}
+	}
+	for _, site := range sites {
+		f, al := site.f, site.at
+		{
+			{
 				switch short(f) {
 				case "(*internal/engine.replacerCompiler).compileGeneric":
 					// must be unreachable when any structural kind case is taken
@@ -177,17 +243,9 @@ func c03FreshCopies(r *an.Run) {
 				case "(*internal/engine.replacerCompiler).compile":
 					// Value must be reflect.ValueOf(typed nil)
 					good := false
-					for _, u := range *al.Referrers() {
-						if fa, ok := u.(*ssa.FieldAddr); ok {
-							for _, w := range *fa.Referrers() {
-								if st, ok := w.(*ssa.Store); ok {
-									if c, ok := st.Val.(*ssa.Call); ok && an.IsCallTo(c, "reflect.ValueOf") {
-										if mi, ok := c.Call.Args[0].(*ssa.MakeInterface); ok && an.IsNilConst(mi.X) {
-											good = true
-										}
-									}
-								}
-							}
+					if c, ok := site.value.(*ssa.Call); ok && an.IsCallTo(c, "reflect.ValueOf") {
+						if mi, ok := c.Call.Args[0].(*ssa.MakeInterface); ok && an.IsNilConst(mi.X) {
+							good = true
 						}
 					}
 					r.Check(good, short(f)+"|ValueReplacer-typed-nil", al.Pos(), "in compile, ValueReplacer holds only a typed nil (comments / Ident.Obj are not reproduced)")
